@@ -1608,3 +1608,207 @@ def rule_a8(prog, rep, units, rid='A8'):
                 rep.violation(rid, f, line, 'early-dispatch:%s' % m,
                               '%s: %s is %s on a path on which %s->%s has not been assigned yet: a NULL function pointer is called'
                               % (f.name, o, ('handed to %s(), which calls %s->%s()' % (gname, o, m)) if gname else 'used to dispatch', o, m))
+
+
+# --------------------------------------------------------------------------------------
+# A9: a half-built object is not handed to a clean-up routine that walks a part it does not have yet
+
+def _field_derefs(prog, g, pidx, depth=0, seen=None):
+    """Where does g (or a function it hands the object on to) dereference a pointer FIELD of its pidx-th parameter?
+    -> list of (field, frozenset of fields of the same object that must be non-zero for the dereference to be reached, text)"""
+    seen = seen or set()
+    if getattr(g, 'body', None) is None or (g.key, pidx) in seen or depth > 3 or pidx >= len(g.params):
+        return []
+    seen = seen | {(g.key, pidx)}
+    P = g.params[pidx].get('name')
+    cfg = g.cfg
+    dom = cfg.dominators()
+
+    def field_of(e):
+        e = strip(e)
+        if e.get('kind') == 'MemberExpr' and e.get('isArrow') and access_path(children(e)[0]) == P:
+            return e.get('name')
+        return None
+
+    def nonzero_needed(c, lab):
+        """fields of P that must be non-zero for condition c to come out as lab"""
+        out = set()
+        c = strip_parens(c)
+        truth = lab == 'T'
+        while c.get('kind') == 'UnaryOperator' and c.get('opcode') == '!':
+            truth = not truth
+            c = strip_parens(children(c)[0])
+        if c.get('kind') == 'BinaryOperator' and c.get('opcode') in ('<', '<=', '>', '>=', '!=', '=='):
+            a, b = children(c)
+            fa, fb = field_of(a), field_of(b)
+            op = c['opcode']
+            if fb and ((op == '<' and truth) or (op == '>=' and not truth)):
+                out.add(fb)                                  # x < P->G
+            if fa and ((op == '>' and truth) or (op == '<=' and not truth)):
+                out.add(fa)                                  # P->G > x
+            if fa and int_value_(strip(b)) == 0 and ((op == '!=' and truth) or (op == '==' and not truth)):
+                out.add(fa)
+            if fb and int_value_(strip(a)) == 0 and ((op == '!=' and truth) or (op == '==' and not truth)):
+                out.add(fb)
+        else:
+            fa = field_of(c)
+            if fa and truth:
+                out.add(fa)
+        return out
+
+    def guards_of(d):
+        need = set()
+        for c in cfg.nodes:
+            if c.kind != 'cond' or not isinstance(c.ast, dict) or c.id not in dom.get(d.id, ()) or c is d:
+                continue
+            for lab in ('T', 'F'):
+                others = [s for (s, l2) in c.succs if l2 != lab]
+                # d reachable only through the lab edge?
+                reach = False
+                seen_, work = set(), list(others)
+                while work and not reach:
+                    m = work.pop()
+                    if m is d:
+                        reach = True
+                        break
+                    if m.id in seen_ or m is c:
+                        continue
+                    seen_.add(m.id)
+                    work += [s for (s, _l) in m.succs]
+                if not reach:
+                    need |= nonzero_needed(c.ast, lab)
+        return need
+    out = []
+    for d in cfg.nodes:
+        if d.id not in cfg.reachable or not isinstance(d.ast, dict) or d.kind == 'macro':
+            continue
+        for x in walk(d.ast):
+            k = x.get('kind')
+            F = None
+            if k == 'ArraySubscriptExpr':
+                F = field_of(children(x)[0])
+            elif k == 'UnaryOperator' and x.get('opcode') == '*':
+                F = field_of(children(x)[0])
+            elif k == 'MemberExpr' and x.get('isArrow'):
+                F = field_of(children(x)[0])
+            if F:
+                own_guard = set()
+                if d.kind == 'cond':
+                    pass
+                out.append((F, frozenset(guards_of(d)), '%s:%s %s' % (g.relfile, x.get('_line'), canon(x)[:40])))
+            if k == 'CallExpr':
+                for h in prog.callees(g.unit, x):
+                    if getattr(h, 'body', None) is None:
+                        continue
+                    for j, a in enumerate(children(x)[1:]):
+                        if access_path(a) == P:
+                            gd = frozenset(guards_of(d))
+                            for (F2, g2, t2) in _field_derefs(prog, h, j, depth + 1, seen):
+                                out.append((F2, g2 | gd, t2))
+    return out
+
+
+def rule_a9(prog, rep, units, rid='A9'):
+    """Failure paths of constructors: the object is zero-initialised, then built field by field; when a later allocation fails
+    the half-built object goes to the container's own free()/clear().  That routine walks a pointer field (the slot array)
+    under guards over other fields (the range, the count).  The walk is harmless while those guard fields are still zero;
+    once one path has given every guard field a value while the walked field is still NULL, the clean-up dereferences NULL."""
+    rep.rule(rid, 'a zero-initialised, half-built object is handed to a clean-up routine only while, for every pointer field the routine '
+                  'dereferences and that is still NULL, at least one of the fields guarding that dereference is still zero')
+    for rel in units:
+        prog.unit(rel)
+        for f in sorted(prog.funcs_in(rel), key=lambda x: x.line or 0):
+            if f.body is None:
+                continue
+            cfg = f.cfg
+            # zero-initialised objects: O = calloc(..)  |  O = malloc(..); memset(O, 0, ..)
+            objs = {}
+            for n in cfg.nodes:
+                if n.id not in cfg.reachable or not isinstance(n.ast, dict) or n.kind == 'macro':
+                    continue
+                for ev in node_events(n):
+                    if ev[0] == 'decl' and ev[2] is not None and strip(ev[2]).get('kind') == 'CallExpr' and \
+                            prog.callee_name(strip(ev[2])) == 'calloc':
+                        objs[ev[1].get('name')] = n
+                    elif ev[0] == 'assign' and strip(ev[2]).get('kind') == 'CallExpr' and prog.callee_name(strip(ev[2])) == 'calloc' \
+                            and strip(ev[1]).get('kind') == 'DeclRefExpr':
+                        objs[canon(ev[1])] = n
+                    elif ev[0] == 'call' and prog.callee_name(ev[1]) == 'memset' and len(children(ev[1])) > 2 and \
+                            int_value_(strip(children(ev[1])[2])) == 0:
+                        a0 = strip(children(ev[1])[1])
+                        while a0.get('kind') in ('ParenExpr', 'CStyleCastExpr', 'ImplicitCastExpr') and children(a0):
+                            a0 = strip(children(a0)[0])
+                        if a0.get('kind') == 'DeclRefExpr':
+                            objs[canon(a0)] = n
+            for O, start in sorted(objs.items()):
+                # calls that take O
+                sites = []
+                for n in cfg.nodes:
+                    if n.id not in cfg.reachable or not isinstance(n.ast, dict) or n.kind == 'macro':
+                        continue
+                    for ev in node_events(n):
+                        if ev[0] == 'call':
+                            for j, a in enumerate(children(ev[1])[1:]):
+                                if access_path(a) == O:
+                                    for h in prog.callees(f.unit, ev[1]):
+                                        if getattr(h, 'body', None) is not None:
+                                            ds = _field_derefs(prog, h, j)
+                                            if ds:
+                                                sites.append((n, ev[1], h, ds))
+                if not sites:
+                    continue
+                relevant = {F for (_n, _c, _h, ds) in sites for (F, gs, _t) in ds} | {G for (_n, _c, _h, ds) in sites for (_F, gs, _t) in ds for G in gs}
+                site_nodes = {n.id: (call, h, ds) for (n, call, h, ds) in sites}
+                for n_id in site_nodes:
+                    rep.instance(rid)
+                bad = {}
+                seen = set()
+                work = [(s, frozenset()) for (s, _l) in start.succs]
+                steps = 0
+                while work:
+                    steps += 1
+                    if steps > 20000:
+                        break
+                    m, assigned = work.pop()
+                    if (m.id, assigned) in seen or m is cfg.exit:
+                        continue
+                    seen.add((m.id, assigned))
+                    a2 = set(assigned)
+                    if isinstance(m.ast, dict) and m.kind != 'macro':
+                        if m.id in site_nodes and m.id not in bad:
+                            call, h, ds = site_nodes[m.id]
+                            for (F, gs, txt) in ds:
+                                if F not in a2 and all(G in a2 for G in gs):
+                                    bad[m.id] = (call, h, F, gs, txt)
+                                    break
+                        for ev in node_events(m):
+                            if ev[0] == 'assign':
+                                l = strip(ev[1])
+                                if l.get('kind') == 'MemberExpr' and l.get('isArrow') and access_path(children(l)[0]) == O and l.get('name') in relevant:
+                                    if is_null(ev[2]) or int_value_(strip(ev[2])) == 0:
+                                        a2.discard(l.get('name'))
+                                    else:
+                                        a2.add(l.get('name'))
+                    elif m.kind == 'macro' and isinstance(m.ast, dict):
+                        pass
+                    for (s, lab) in m.succs:
+                        a3 = a2
+                        if m.kind == 'cond' and isinstance(m.ast, dict) and lab in ('T', 'F'):
+                            t = cond_null_test(m.ast)
+                            if t and t[0].startswith(O + '->') and t[0].count('->') == 1:
+                                fld = t[0].split('->')[1]
+                                if fld in relevant and ((lab == 'T') == t[1]):
+                                    a3 = set(a2)
+                                    a3.discard(fld)            # known NULL on this edge
+                        work.append((s, frozenset(a3)))
+                for n_id, (call, h, ds) in site_nodes.items():
+                    ok = n_id not in bad
+                    rep.oblige(rid, ok, {'function': f.name, 'object': O, 'cleanup': h.name})
+                    if not ok:
+                        call, h, F, gs, txt = bad[n_id]
+                        rep.violation(rid, f, call.get('_line'), 'halfbuilt:%s' % F,
+                                      '%s hands the half-built %s to %s() on a path on which %s->%s is still NULL while %s: the clean-up '
+                                      'dereferences it (%s) - the failure is turned into a crash instead of being reported'
+                                      % (f.name, O, h.name, O, F,
+                                         ('every field guarding its walk (%s) has already been given a value' % ', '.join(sorted(gs)))
+                                         if gs else 'nothing guards the dereference', txt))
